@@ -1241,6 +1241,8 @@ def gen_port_cases(rng, n, tmpdir):
         tail = [g.rchar() for _ in range(rng.randrange(0, 6))]
         if rng.random() < 0.3:
             tail = tail + [10] + [g.rchar() for _ in range(3)]
+        if kind0 in ("file-read-line", "in-read-line") and (w + split + bound) % 2 == 0:
+            tail = [0x62, 0, 0x63] + tail          # U+0000 inside a line, deterministically (a C string would end there)
         cps = lead + [fill] * pad + [c] + tail
         kind = kind0 or rng.choice(("out-char", "out-string", "out-mixed", "in-read-char", "in-peek", "in-read-string",
                                     "in-read-line", "file-read-char", "file-peek", "file-read-string", "file-read-line",
